@@ -34,6 +34,14 @@ def run(ctx):
         ctx.log("%s: %d generated / %d distinct; %d class witnesses, %d post-commit state witnesses used"
                 % (cfg, mc.generated, mc.distinct, len(cls), len(st)))
         behs += cls + st
+    if ctx.want("d"):
+        # two interleaved appenders with the out-of-order window on, from a preloaded head: every transition is emitted;
+        # histories ending in a Commit contain all others as prefixes
+        mc = ctx.tlc("db", "Db", "MC_c02_d.cfg", workers=8, timeout=1500)
+        ctx.account(mc)
+        fin = [b for b in mc.emitted if b[-1]["a"] == "Commit"]
+        ctx.log("MC_c02_d.cfg: %d generated / %d distinct; %d histories ending in Commit" % (mc.generated, mc.distinct, len(fin)))
+        behs += fin
     d = 18 if q else 30
     for w in (0, 3):
         if not ctx.want("sim"):
